@@ -42,7 +42,9 @@ fn run_problem_display(e: &Sexp) -> Result<Sexp, String> {
 fn gen_emit(rng: &mut Rng) -> Sexp {
     let mut raw = tg::raw_problem(rng);
     if !raw.formulas.iter().any(|f| f.role == pb::Role::Conjecture) {
-        raw.formulas.last_mut().unwrap().role = pb::Role::Conjecture;
+        if let Some(last) = raw.formulas.last_mut() {
+            last.role = pb::Role::Conjecture;
+        }
     }
     l(vec![conv::problem(&raw), a(if rng.chance(50) { "independent" } else { "sequential" })])
 }
